@@ -67,10 +67,14 @@ fn op(u: &mut Unstructured) -> arbitrary::Result<Op> {
         7 | 8 => Op::PDelete { c, pattern: pattern(u)? },
         9 => {
             let n = u.int_in_range(1..=3)?;
-            let mut entries = vec![];
+            let mut entries: Vec<ImportEntry> = vec![];
             for _ in 0..n {
                 let cas = if u.ratio(1, 3)? { Some(u.int_in_range(1..=5)?) } else { None };
-                entries.push(ImportEntry { key: key(u)?, value: value(u)?, cas });
+                let e = ImportEntry { key: key(u)?, value: value(u)?, cas };
+                // an import document names every key once
+                if !entries.iter().any(|x| x.key == e.key) {
+                    entries.push(e);
+                }
             }
             Op::Import { entries }
         }
